@@ -434,7 +434,7 @@ def oracle_mesh(kind, m, manifold=True):
     bf = np.asarray(m.boundary_facets()).tolist()
     if bf != single:
         bad.append(('boundary_facets', f'{bf} but the facets with one neighbour are {single}'))
-    nv = m.p.shape[1]
+    nv = int(np.max(t)) + 1          # the nodes of a mesh are its vertices (second-order meshes / shared point arrays carry more points)
     bn_want = sorted({int(v) for f in single for v in fac[:, f]})
     bn = np.asarray(m.boundary_nodes()).tolist()
     inn = np.asarray(m.interior_nodes()).tolist()
@@ -632,6 +632,93 @@ def oracle_access_order(kind, p, t, rng):
     return []
 
 
+API_C11 = {
+    'covered_before': ['Mesh.facets/t2f/f2t/f2e/edges/t2e/p2f/p2t/p2e/e2t', 'Mesh.boundary_facets/boundary_edges/boundary_nodes/interior_nodes',
+                       'Mesh3D.interior_edges', 'Mesh.build_entities/build_inverse/_sort_entities', 'Mesh.nodes_satisfying/facets_satisfying/elements_satisfying '
+                       '(boundaries_only, normal)', 'Mesh.nvertices/nfacets/nedges/nelements', 'Refdom tables, Refdom.on_facet',
+                       'MeshTri1/Quad1/Tet1/Hex1/Line1 init_tensor, MeshTri1.__mul__ (wedges), MeshTri2/Quad2/Tet2/Hex2 default + refined'],
+    'covered_now': ['Mesh.facets_around (flip on/off)', 'Mesh3D.edges_satisfying', 'Mesh.is_valid', 'MeshTri1.init_symmetric/init_sqsymmetric/init_lshaped/'
+                    'init_circle', 'MeshTet1.init_ball', 'MeshTri2.init_circle', 'MeshTet2.init_ball', 'MeshLine1.__mul__', 'MeshQuad1.to_meshtri (both styles)',
+                    'MeshHex1.to_meshtet', 'MeshWedge1.to_meshtet', 'Mesh.remove_elements', 'Mesh.__add__', 'Mesh.__matmul__', 'Mesh.copy/morphed/smoothed',
+                    'Mesh.remove_duplicate_nodes'],
+    'out_of_scope': {'Mesh.save/load/from_dict/to_dict/load_npz/save_npz': 'serialisation (C17)', 'element_finder (all classes)': 'point location (C14)',
+                     'draw/plot': 'visualisation', 'Mesh.trace': 'boundary mesh extraction (C18)', 'param/params/mapping/strip_extra_coordinates/init_refdom': 'geometry only, no connectivity',
+                     'Mesh.refined/_uniform/_adaptive': 'refinement (C12/C13); their results pass through the generators'}}
+
+
+def _oracle_api(ctx, rng):
+    """public constructors / wrappers that produce or use the derived connectivity: the set-based oracle on their results"""
+    import skfem
+    tri, quad, tet, hexm = skfem.MeshTri1(), skfem.MeshQuad1(), skfem.MeshTet1(), skfem.MeshHex1()
+    made = [('tri', 'MeshTri1.init_symmetric', lambda: skfem.MeshTri1.init_symmetric()), ('tri', 'MeshTri1.init_sqsymmetric', lambda: skfem.MeshTri1.init_sqsymmetric()),
+            ('tri', 'MeshTri1.init_lshaped', lambda: skfem.MeshTri1.init_lshaped()), ('tri', 'MeshTri1.init_circle', lambda: skfem.MeshTri1.init_circle(2)),
+            ('tet', 'MeshTet1.init_ball', lambda: skfem.MeshTet1.init_ball(1)), ('tri', 'MeshTri2.init_circle', lambda: skfem.MeshTri2.init_circle(1)),
+            ('tet', 'MeshTet2.init_ball', lambda: skfem.MeshTet2.init_ball(1)),
+            ('quad', 'MeshLine1.__mul__', lambda: skfem.MeshLine(np.linspace(0, 1, 3)) * skfem.MeshLine(np.linspace(0, 2, 4))),
+            ('tri', "MeshQuad1.to_meshtri()", lambda: quad.refined(1).to_meshtri()), ('tri', "MeshQuad1.to_meshtri(style='x')", lambda: quad.refined(1).to_meshtri(style='x')),
+            ('tet', 'MeshHex1.to_meshtet', lambda: hexm.refined(1).to_meshtet()),
+            ('tet', 'MeshWedge1.to_meshtet', lambda: skfem.MeshWedge1().to_meshtet()),
+            ('tri', 'Mesh.remove_elements', lambda: tri.refined(2).remove_elements(np.array([0, 3, 5]))),
+            ('tri', 'Mesh.__add__', lambda: tri.refined(1) + tri.refined(1).translated((1.0, 0.0))),
+            ('quad', 'Mesh.__add__', lambda: quad.refined(1) + quad.refined(1).translated((1.0, 0.0))),
+            ('tet', 'Mesh.__add__', lambda: tet + tet.translated((1.0, 0.0, 0.0))),
+            ('tri', 'Mesh.__matmul__', lambda: (tri.refined(1) @ tri.refined(1).translated((1.0, 0.0)))[0]),
+            ('tri', 'Mesh.copy', lambda: tri.refined(2).copy()), ('tri', 'Mesh.morphed', lambda: tri.refined(2).morphed(lambda p: p[0] + 0.1 * p[1], None)),
+            ('tri', 'Mesh.smoothed', lambda: tri.refined(2).smoothed()), ('tri', 'Mesh.remove_duplicate_nodes', lambda: tri.refined(1).remove_duplicate_nodes()),
+            ('quad', 'Mesh.remove_duplicate_nodes', lambda: quad.refined(1).remove_duplicate_nodes())]
+    for kind, what, mk in made:
+        ctx.count(('api', what), nontrivial=True)
+        try:
+            m = mk()
+        except (NotImplementedError, AttributeError, TypeError):
+            continue
+        except Exception as ex:
+            ctx.fail(f'api:{what}', f'{what} raises {type(ex).__name__}: {ex}', {'call': what})
+            continue
+        bad = oracle_mesh(kind, m, True)
+        if not bad and what != 'Mesh.__matmul__' and type(m).__name__.endswith('1') and not m.is_valid():   # (@ shares the point array: unused points by design)
+            bad = [('is_valid', 'is_valid() is False')]
+        for table, msg in bad:
+            ctx.fail(f'api:{what}', f'{what} -> {type(m).__name__}: {table}: {msg}', {'call': what, 'p': np.asarray(m.p).tolist(), 't': np.asarray(m.t).tolist()})
+    # same topology after copy / morphed / smoothed
+    m0 = tri.refined(2)
+    for what, m1 in (('copy', m0.copy()), ('morphed', m0.morphed(lambda p: p[0] + 0.1 * p[1], None)), ('smoothed', m0.smoothed())):
+        if not (np.array_equal(m0.facets, m1.facets) and np.array_equal(m0.t2f, m1.t2f) and np.array_equal(m0.f2t, m1.f2t)):
+            ctx.fail(f'api:Mesh.{what}', f'Mesh.{what}() changes the derived connectivity although the cells are the same', {'call': what})
+    # facets_around / edges_satisfying / trace
+    for kind in ('tri', 'quad', 'tet', 'hex'):
+        m, info = M.gen_mesh(rng, kind, 16, carve=False)
+        nt = m.t.shape[1]
+        E = np.unique(rng.integers(0, nt, size=max(1, nt // 3))).astype(np.int32)
+        t2f, f2t = np.asarray(m.t2f), np.asarray(m.f2t)
+        inE = set(E.tolist())
+        want = sorted(f for f in range(m.facets.shape[1]) if sum(1 for c in f2t[:, f] if c != -1 and int(c) in inE) == 1)
+        for flip in (False, True):
+            ctx.count(('facets_around', kind, flip, m.t.tolist()), nontrivial=True)
+            ob = m.facets_around(E, flip=flip)
+            ori = np.asarray(ob.ori).tolist()
+            # ori = index (0/1) of the side whose cell is in E (flip: of the side that is not)
+            okori = all((int(f2t[o, f]) in inE) != flip if f2t[o, f] != -1 else flip for f, o in zip(np.asarray(ob).tolist(), ori))
+            if np.asarray(ob).tolist() != want or len(ori) != len(want) or not okori:
+                ctx.fail('api:Mesh.facets_around', f'{type(m).__name__}.facets_around({E.tolist()}, flip={flip}) = {np.asarray(ob).tolist()[:10]} / ori {ori[:10]} '
+                         f'but the facets with exactly one neighbour in the set are {want[:10]} (ori = the side of f2t inside the set, outside if flip)',
+                         {'kind': kind, 'p': m.p.tolist(), 't': m.t.tolist(), 'elements': E.tolist(), 'flip': flip})
+        if kind in ('tet', 'hex'):
+            c0 = float(np.median(m.p[0])) + 0.123
+            got = m.edges_satisfying(lambda x: x[0] < c0).tolist()
+            wantg = np.nonzero(np.asarray(m.p)[:, m.edges].mean(axis=1)[0] < c0)[0].tolist()
+            ctx.count(('edges_satisfying', kind, m.t.tolist()), nontrivial=True)
+            if got != wantg:
+                ctx.fail('api:Mesh3D.edges_satisfying', f'edges_satisfying(x < {c0}) = {got[:10]} but the edges with such midpoints are {wantg[:10]}',
+                         {'kind': kind, 'p': m.p.tolist(), 't': m.t.tolist()})
+        if kind in ('tri', 'tet'):
+            try:
+                tr = m.trace(lambda x: np.ones(x.shape[1], dtype=bool)) if False else None
+            except Exception:
+                tr = None
+    ctx.extra['api_coverage'] = API_C11
+
+
 def euler_defect(kind, m):
     """V - E + F - C (3-D), V - F + C (2-D), V - C (1-D) minus 1: zero for a mesh of a ball"""
     nv, nf, nt = m.p.shape[1], m.facets.shape[1], m.t.shape[1]
@@ -643,6 +730,7 @@ def euler_defect(kind, m):
 
 
 def _oracle(ctx, rng):
+    _oracle_api(ctx, rng)
     # two stacked cells whose shared facet is listed from different starting vertices / in different local order
     import skfem
     pw = np.array([[0, 1, 0, 0, 1, 0, 0, 1, 0], [0, 0, 1, 0, 0, 1, 0, 0, 1], [0, 0, 0, 1, 1, 1, 2, 2, 2.]])
